@@ -3,7 +3,7 @@
 (* subset of the type families of the value.  Serves C04, C02, C13.         *)
 EXTENDS MCGen
 OpsV == {"GoNew", "Sentinel", "Errno", "New", "Newf", "NewfW", "Unimplemented",
-         "AssertionFailedf", "ULeaf", "Wrap", "Wrapf", "WithMessage", "WithStack", "WithHint",
+         "AssertionFailedf", "ULeaf", "GrpcStatus", "Wrap", "Wrapf", "WithMessage", "WithStack", "WithHint",
          "WithDetail", "WithSafeDetails", "WithTelemetry", "WithDomain", "WithIssueLink",
          "WithContextTags", "WithAssertionFailure", "Mark", "WithSecondaryError",
          "Handled", "HandledWithMessage", "HandledInDomain", "WrapWithHTTPCode",
